@@ -9,7 +9,7 @@
     * if no OPAQUE token was written, `items` is well-formed for every reader context
       that agrees with the encoder (`wf`).
 -/
-import Wbxml.Lemmas.EncWText
+import Wbxml.Lemmas.EncWTbl
 namespace Wbxml.Lemmas.EncW
 open Wbxml Wbxml.Model Wbxml.Spec Wbxml.Lemmas.ParseSer
 open Wbxml.Model.Codec (mbEncode)
@@ -19,16 +19,19 @@ structure Seg (c : WCfg) (st st' : WSt) (items : List Item) : Prop where
   pages : ∀ ctx own, (evItems ctx own ⟨st.tagPage, st.attrPage⟩ items).2 = ⟨st'.tagPage, st'.attrPage⟩
   tbl : TblExt c st st'
   refs : ∀ off ∈ refsItems items, ∃ e ∈ st'.strtbl, e.offset = off
-  wf : ∀ ctx, Compat c st'.strtbl ctx → langOk c.lang = true → opqsItems items = [] →
+  wf : ∀ ctx, Compat c st'.strtbl ctx → langOk c.lang = true → OpqCond c (opqsItems items) →
     ∀ own slot, wfItems ctx own slot ⟨st.tagPage, st.attrPage⟩ items = true
+  /-- every opaque payload lies inside the bytes written -/
+  osz : ∀ d ∈ opqsItems items, d.length ≤ (serItems items).length
 
 theorem Seg.nil (c : WCfg) (st : WSt) : Seg c st st [] :=
   ⟨by rw [serItems_nil, List.append_nil], fun _ _ => by rw [evItems_nil], TblExt.refl _ _,
-    (by intro o ho; rw [refsItems_nil] at ho; cases ho), fun _ _ _ _ _ _ => by rw [wfItems]⟩
+    (by intro o ho; rw [refsItems_nil] at ho; cases ho), fun _ _ _ _ _ _ => by rw [wfItems],
+    (by intro d hd; rw [opqsItems_nil] at hd; cases hd)⟩
 
 theorem Seg.append {c : WCfg} {st st1 st2 : WSt} {a b : List Item} (h1 : Seg c st st1 a) (h2 : Seg c st1 st2 b) :
     Seg c st st2 (a ++ b) := by
-  refine ⟨?_, ?_, h1.tbl.trans h2.tbl, ?_, ?_⟩
+  refine ⟨?_, ?_, h1.tbl.trans h2.tbl, ?_, ?_, ?_⟩
   · rw [h2.out, h1.out, serItems_append, List.append_assoc]
   · intro ctx own; rw [evItems_append_pages, h1.pages, h2.pages]
   · intro off ho
@@ -38,40 +41,427 @@ theorem Seg.append {c : WCfg} {st st1 st2 : WSt} {a b : List Item} (h1 : Seg c s
       exact ⟨e, h2.tbl.pre.subset he, heo⟩
     · exact h2.refs off ho
   · intro ctx hc hl hno own slot
-    rw [opqsItems_append, List.append_eq_nil_iff] at hno
-    rw [wfItems_append, h1.wf ctx (hc.mono h2.tbl.pre) hl hno.1 own slot, Bool.true_and, h1.pages]
-    exact h2.wf ctx hc hl hno.2 own _
+    rw [opqsItems_append] at hno
+    rw [wfItems_append, h1.wf ctx (hc.mono h2.tbl.pre) hl hno.left own slot, Bool.true_and, h1.pages]
+    exact h2.wf ctx hc hl hno.right own _
+  · intro d hd
+    rw [opqsItems_append, List.mem_append] at hd
+    rw [serItems_append, List.length_append]
+    rcases hd with hd | hd
+    · have := h1.osz d hd; omega
+    · have := h2.osz d hd; omega
 
 /-- A state that differs only in fields the grammar does not see. -/
 theorem Seg.congr_right {c : WCfg} {st st1 st2 : WSt} {a : List Item} (h : Seg c st st1 a)
     (ho : st2.out = st1.out) (htp : st2.tagPage = st1.tagPage) (hap : st2.attrPage = st1.attrPage)
     (ht : st2.strtbl = st1.strtbl) (hl : st2.strtblLen = st1.strtblLen) : Seg c st st2 a :=
   ⟨ho ▸ h.out, fun ctx own => by rw [htp, hap]; exact h.pages ctx own, h.tbl.trans (TblExt.of_eq ht hl),
-    ht ▸ h.refs, ht ▸ h.wf⟩
+    ht ▸ h.refs, ht ▸ h.wf, h.osz⟩
 
 theorem Seg.congr_left {c : WCfg} {st0 st st1 : WSt} {a : List Item} (h : Seg c st st1 a)
     (ho : st.out = st0.out) (htp : st.tagPage = st0.tagPage) (hap : st.attrPage = st0.attrPage)
     (ht : st.strtbl = st0.strtbl) (hl : st.strtblLen = st0.strtblLen) : Seg c st0 st1 a :=
   ⟨ho ▸ h.out, fun ctx own => by rw [← htp, ← hap]; exact h.pages ctx own,
     (TblExt.of_eq ht hl).trans h.tbl, h.refs, fun ctx hc hlk hno own slot => by
-      rw [← htp, ← hap]; exact h.wf ctx hc hlk hno own slot⟩
+      rw [← htp, ← hap]; exact h.wf ctx hc hlk hno own slot, h.osz⟩
+
+theorem leaves_osz (c : WCfg) (tbl) (items : List Item) (h : ∀ it ∈ items, Leaf c tbl it) :
+    ∀ d ∈ opqsItems items, d.length ≤ (serItems items).length := by
+  induction items with
+  | nil => intro d hd; rw [opqsItems_nil] at hd; cases hd
+  | cons it rest ih =>
+    intro d hd
+    rw [opqsItems_cons, List.mem_append] at hd
+    rw [serItems_cons, List.length_append]
+    rcases hd with hd | hd
+    · cases h it List.mem_cons_self with
+      | inl s _ => rw [opqsItem_str] at hd; cases hd
+      | ref o _ => rw [opqsItem_str] at hd; cases hd
+      | ext v _ _ => rw [opqsItem_ext] at hd; cases hd
+      | opq d' =>
+        rw [opqsItem_opaque, List.mem_singleton] at hd
+        subst hd
+        rw [serItem_opaque]
+        simp only [serOpaque, List.length_cons, List.length_append]
+        omega
+    · have := ih (fun x hx => h x (List.mem_cons_of_mem _ hx)) d hd
+      omega
+
+theorem opqsAVals_le (vs : List AVal) : ∀ d ∈ opqsAVals vs, d.length ≤ (serAVals vs).length := by
+  induction vs with
+  | nil => intro d hd; cases hd
+  | cons v rest ih =>
+    intro d hd
+    simp only [opqsAVals, List.mem_append] at hd
+    simp only [serAVals, List.length_append]
+    rcases hd with hd | hd
+    · cases v with
+      | «opaque» d' =>
+        simp only [opqsAVal, List.mem_singleton] at hd
+        subst hd
+        simp only [serAVal, serOpaque, List.length_cons, List.length_append]
+        omega
+      | tok sw t => cases hd
+      | str s => cases hd
+      | entity cd => cases hd
+      | ext sw x => cases hd
+    · have := ih d hd; omega
+
+theorem opqsAttrs_le (as : List Attribute) : ∀ d ∈ opqsAttrs as, d.length ≤ (serAttrs as).length := by
+  induction as with
+  | nil => intro d hd; cases hd
+  | cons a rest ih =>
+    intro d hd
+    simp only [opqsAttrs, List.mem_append] at hd
+    simp only [serAttrs, List.length_append]
+    rcases hd with hd | hd
+    · have := opqsAVals_le a.vals d hd
+      simp only [serAttr, List.length_append]
+      omega
+    · have := ih d hd; omega
 
 /-- Leaves written without touching pages or table. -/
 theorem Seg.leaves (c : WCfg) (st st' : WSt) (items : List Item) (hleaf : ∀ it ∈ items, Leaf c st.strtbl it)
     (ho : st'.out = st.out ++ serItems items) (htp : st'.tagPage = st.tagPage) (hap : st'.attrPage = st.attrPage)
     (ht : st'.strtbl = st.strtbl) (hl : st'.strtblLen = st.strtblLen) : Seg c st st' items := by
-  refine ⟨ho, ?_, TblExt.of_eq ht hl, ?_, ?_⟩
+  refine ⟨ho, ?_, TblExt.of_eq ht hl, ?_, ?_, leaves_osz c st.strtbl items hleaf⟩
   · intro ctx own; rw [leaves_page c st.strtbl ctx own _ items hleaf, htp, hap]
   · rw [ht]; exact leaves_refs c st.strtbl items hleaf
   · intro ctx hc hlk hno own slot
     rw [ht] at hc
     exact leaves_wf c st.strtbl ctx hc hlk own slot _ items hleaf hno
 
-/-- One element. -/
-theorem Seg.elem (c : WCfg) (st st1 st2 : WSt) (hasContent : Bool) (sw tag as) (items : List Item)
-    (hs : StartRes c st st1 hasContent sw tag as) (hk : Seg c st1 st2 items) :
-    Seg c st (if hasContent then st2.emit [0x01] else st2)
-      [.elem (.mk sw tag as (if hasContent then some items else none))] →
-    True := fun _ => trivial
+theorem refsItems_single (it : Item) : refsItems [it] = refsItem it := by
+  rw [refsItems_cons, refsItems_nil, List.append_nil]
+theorem opqsItems_single (it : Item) : opqsItems [it] = opqsItem it := by
+  rw [opqsItems_cons, opqsItems_nil, List.append_nil]
+theorem serItems_single (it : Item) : serItems [it] = serItem it := by
+  rw [serItems_cons, serItems_nil, List.append_nil]
+theorem evItems_single_pages (ctx own pg) (it : Item) : (evItems ctx own pg [it]).2 = (evItem ctx own pg it).2 := by
+  rw [evItems_cons, evItems_nil]
+theorem evItems_single_events (ctx own pg) (it : Item) : (evItems ctx own pg [it]).1 = (evItem ctx own pg it).1 := by
+  rw [evItems_cons, evItems_nil, List.append_nil]
+theorem wfItems_single (ctx own slot pg) (it : Item) : wfItems ctx own slot pg [it] = wfItem ctx own slot pg it := by
+  rw [wfItems_cons, wfItems, Bool.and_true]
+
+/-- An element with content: start, children, END. -/
+theorem Seg.elem_content (c : WCfg) (nm : Bytes) (src : List (Bytes × Bytes)) (st st1 st2 : WSt) (sw tag as) (items : List Item)
+    (hs : StartRes c nm src st st1 true sw tag as) (hk : Seg c st1 st2 items) :
+    Seg c st (st2.emit [0x01]) [.elem (.mk sw tag as (some items))] := by
+  have hattrs : ∀ d ∈ opqsAttrs as, d.length ≤ (serElem (.mk sw tag as (some items))).length := by
+    intro d hd
+    have h1 := opqsAttrs_le as d hd
+    rw [serElem_mk]
+    cases as with
+    | nil => cases hd
+    | cons a rest =>
+      simp only [List.isEmpty_cons, Bool.false_eq_true, ↓reduceIte, List.length_append]
+      omega
+  refine ⟨?_, ?_, hs.tbl.trans (hk.tbl.trans (TblExt.of_eq rfl rfl)), ?_, ?_, ?_⟩
+  · rw [serItems_single, serItem_elem, serElem_mk, serContent_some, emit_out, hk.out, hs.out]
+    simp
+  · intro ctx own
+    rw [evItems_single_pages, evItem_elem, evElem_mk, evContent_some]
+    simp only [emit_tagPage, emit_attrPage]
+    rw [← hs.tp, ← hs.ap ctx]
+    exact hk.pages ctx _
+  · intro off ho
+    rw [refsItems_single, refsItem_elem, refsElem_mk, refsContent_some] at ho
+    simp only [List.mem_append] at ho
+    show ∃ e ∈ st2.strtbl, _
+    rcases ho with ho | ho | ho
+    · obtain ⟨e, he, heo⟩ := tagOk_refs c _ _ _ _ _ hs.tag off ho
+      exact ⟨e, hk.tbl.pre.subset he, heo⟩
+    · obtain ⟨e, he, heo⟩ := hs.refs off ho
+      exact ⟨e, hk.tbl.pre.subset he, heo⟩
+    · exact hk.refs off ho
+  · intro ctx hc hl hno own slot
+    have hc2 : Compat c st2.strtbl ctx := hc
+    have hc1 : Compat c st1.strtbl ctx := hc2.mono hk.tbl.pre
+    rw [opqsItems_single, opqsItem_elem, opqsElem_mk, opqsContent_some] at hno
+    have hna : opqsAttrs as = [] := by
+      rcases hno.left with h | ⟨hu, _⟩
+      · exact h
+      · exact hs.noopq (untyped_noTypedAttr _ hu)
+    have htag := tagOk_wf c _ _ _ _ _ hs.tag ctx hc1 hl
+    rw [wfItems_single, wfItem_elem, wfElem_mk, wfContent_some, htag.1, htag.2, hs.wf ctx hc1 hl hna]
+    simp only [Bool.and_self, Bool.true_and]
+    rw [← hs.tp, ← hs.ap ctx]
+    exact hk.wf ctx hc2 hl hno.right _ _
+  · intro d hd
+    rw [opqsItems_single, opqsItem_elem, opqsElem_mk, opqsContent_some, List.mem_append] at hd
+    rw [serItems_single, serItem_elem]
+    rcases hd with hd | hd
+    · exact hattrs d hd
+    · have := hk.osz d hd
+      rw [serElem_mk, serContent_some]
+      simp only [List.length_append]
+      omega
+
+/-- An element without content. -/
+theorem Seg.elem_empty (c : WCfg) (nm : Bytes) (src : List (Bytes × Bytes)) (st st1 : WSt) (sw tag as)
+    (hs : StartRes c nm src st st1 false sw tag as) :
+    Seg c st st1 [.elem (.mk sw tag as none)] := by
+  refine ⟨?_, ?_, hs.tbl, ?_, ?_, ?_⟩
+  · rw [serItems_single, serItem_elem, serElem_mk, serContent_none, hs.out]
+    simp
+  · intro ctx own
+    rw [evItems_single_pages, evItem_elem, evElem_mk, evContent_none]
+    simp only
+    rw [← hs.tp, ← hs.ap ctx]
+  · intro off ho
+    rw [refsItems_single, refsItem_elem, refsElem_mk, refsContent_none] at ho
+    simp only [List.mem_append, List.append_nil] at ho
+    rcases ho with ho | ho
+    · exact tagOk_refs c _ _ _ _ _ hs.tag off ho
+    · exact hs.refs off ho
+  · intro ctx hc hl hno own slot
+    rw [opqsItems_single, opqsItem_elem, opqsElem_mk, opqsContent_none, List.append_nil] at hno
+    have hna : opqsAttrs as = [] := by
+      rcases hno with h | ⟨hu, _⟩
+      · exact h
+      · exact hs.noopq (untyped_noTypedAttr _ hu)
+    have htag := tagOk_wf c _ _ _ _ _ hs.tag ctx hc hl
+    rw [wfItems_single, wfItem_elem, wfElem_mk, htag.1, htag.2, hs.wf ctx hc hl hna, wfContent]
+    rfl
+  · intro d hd
+    rw [opqsItems_single, opqsItem_elem, opqsElem_mk, opqsContent_none, List.append_nil] at hd
+    rw [serItems_single, serItem_elem, serElem_mk]
+    have h1 := opqsAttrs_le as d hd
+    cases as with
+    | nil => cases hd
+    | cons a rest =>
+      simp only [List.isEmpty_cons, Bool.false_eq_true, ↓reduceIte, List.length_append]
+      omega
+
+
+def isElt : Node → Bool
+  | .elt _ _ _ => true
+  | _ => false
+
+/-! ### The source view (what C03 compares)
+
+  `srcToks c n` is the XML-level view (`Tok`) of a node under the documented normalisations:
+  element names and attribute names as XML names, attribute values as C strings with the trailing
+  NUL the handlers get, attributes dropped for a language without attribute table, character data
+  `normText` octet by octet. It is defined without any encoder state. -/
+
+/-- Languages whose content the encoder never types: not Wireless Village, not DRMREL, no
+    binary-flagged tags. -/
+def plainLang (l : Lang) : Bool :=
+  !isWv l.id && !(l.id == 1801) &&
+  (match l.tags with | some t => t.all (fun r => r.opts &&& 1 == 0) | none => true)
+
+mutual
+/-- No CDATA section and no embedded document below. -/
+def plainNode : Node → Bool
+  | .elt _ _ kids => plainNodes kids
+  | .text _ => true
+  | .cdata _ => false
+  | .tree _ _ _ => false
+def plainNodes : List Node → Bool
+  | [] => true
+  | n :: r => plainNode n && plainNodes r
+end
+
+mutual
+def srcToks (c : WCfg) : Node → List Tok
+  | .elt name attrs kids => .start name.cName (srcAttrsView c attrs) :: (srcToksL c kids ++ [.stop name.cName])
+  | .text s => (normText c s).map .ch
+  | .cdata _ => []
+  | .tree _ _ _ => []
+def srcToksL (c : WCfg) : List Node → List Tok
+  | [] => []
+  | n :: r => srcToks c n ++ srcToksL c r
+end
+
+theorem evItems_append_events (c : Ctx) (own) (pg : Pages) (a b : List Item) :
+    (evItems c own pg (a ++ b)).1 = (evItems c own pg a).1 ++ (evItems c own (evItems c own pg a).2 b).1 := by
+  induction a generalizing pg with
+  | nil => simp [evItems_nil]
+  | cons x xs ih => simp only [List.cons_append, evItems_cons, ih, List.append_assoc]
+
+theorem plainLang_found (c : WCfg) (name : Name) (st : WSt) (hn : nameOver c.lang name = true)
+    (hp : plainLang c.lang = true) : isBinaryTag (foundOf c name st) = false := by
+  cases hf : foundOf c name st with
+  | none => rfl
+  | some r =>
+    obtain ⟨tags, ht, hm⟩ := foundOf_mem c name st hn r hf
+    simp only [plainLang, ht, Bool.and_eq_true, List.all_eq_true, beq_iff_eq] at hp
+    simp [isBinaryTag, hp.2 r hm]
+
+/-- What a reader makes of the items written for a plain node is the source view. -/
+def ViewN (c : WCfg) (n : Node) (st st' : WSt) (items : List Item) : Prop :=
+  plainNode n = true → plainLang c.lang = true → st.inCdata = false → isBinaryTag st.curTag = false →
+    st'.inCdata = false ∧
+    ∀ ctx : Ctx, Rd c st'.strtbl ctx → ∀ own,
+      (evItems ctx own ⟨st.tagPage, st.attrPage⟩ items).1.flatMap toks = srcToks c n
+
+def ViewL (c : WCfg) (l : List Node) (st st' : WSt) (items : List Item) : Prop :=
+  plainNodes l = true → plainLang c.lang = true → st.inCdata = false → isBinaryTag st.curTag = false →
+    st'.inCdata = false ∧ isBinaryTag st'.curTag = false ∧
+    ∀ ctx : Ctx, Rd c st'.strtbl ctx → ∀ own,
+      (evItems ctx own ⟨st.tagPage, st.attrPage⟩ items).1.flatMap toks = srcToksL c l
+
+/-- **The node walk writes content items of the grammar** (`Seg`), for every node (any depth, any
+    language whose tables satisfy `langOk`, any tree over that language) and every state that
+    satisfies the string-table invariant; an element node yields exactly one element; `current_tag`
+    is NULL after every node; and for plain nodes of plain languages a reader that resolves the
+    encoder's table reads back the source view (`ViewN`). -/
+theorem encNode_seg :
+    (∀ (c : WCfg) (parent : Option Name) (encEnd : Bool) (n : Node) (st : WSt), encEnd = true →
+      langOk c.lang = true → nodeOver c.lang n = true → StrInv st →
+      ∀ st', encNodeG c parent encEnd n st = .ok st' →
+        ∃ items, Seg c st st' items ∧ (isElt n = true → ∃ e, items = [.elem e]) ∧
+          st'.curTag = none ∧ ViewN c n st st' items) ∧
+    (∀ (c : WCfg) (parent : Option Name) (l : List Node) (st : WSt),
+      langOk c.lang = true → nodesOver c.lang l = true → StrInv st →
+      ∀ st', encNodesW c parent l st = .ok st' → ∃ items, Seg c st st' items ∧ ViewL c l st st' items) := by
+  apply encNodeG.mutual_induct
+    (motive_1 := fun c parent encEnd n st => encEnd = true →
+      langOk c.lang = true → nodeOver c.lang n = true → StrInv st →
+      ∀ st', encNodeG c parent encEnd n st = .ok st' →
+        ∃ items, Seg c st st' items ∧ (isElt n = true → ∃ e, items = [.elem e]) ∧
+          st'.curTag = none ∧ ViewN c n st st' items)
+    (motive_2 := fun c parent l st =>
+      langOk c.lang = true → nodesOver c.lang l = true → StrInv st →
+      ∀ st', encNodesW c parent l st = .ok st' → ∃ items, Seg c st st' items ∧ ViewL c l st st' items)
+  · -- element
+    intro c parent encEnd name attrs kids st ih hend hl hover hinv st' h
+    subst hend
+    rw [nodeOver, Bool.and_eq_true, Bool.and_eq_true] at hover
+    obtain ⟨⟨hname, hattrs⟩, hkids⟩ := hover
+    simp only [encNodeG] at h
+    obtain ⟨st1, h1, h⟩ := bind_ok' h
+    obtain ⟨st2, h2, h⟩ := bind_ok' h
+    have h3 := ok_inj h
+    obtain ⟨sw, tag, as, hs⟩ := encElementStartW_spec c name attrs (!kids.isEmpty) st st1 hl hname hattrs h1
+    have hcur := encElementStartW_cur c _ name attrs _ st st1 h1
+    -- the reader's start and end events for this element
+    have hname_view : ∀ ctx : Ctx, Rd c st1.strtbl ctx →
+        (tagName ctx (swPage sw st.tagPage) tag).1.xmlName = name.cName :=
+      fun ctx hr => tagOk_name c _ _ _ _ _ hs.tag ctx hr (nameOver_nulFree c name hname hr.ts)
+    cases kids with
+    | nil =>
+      simp only [encNodesW] at h2
+      have := ok_inj h2
+      subst this
+      simp only [List.isEmpty_nil, Bool.not_true, Bool.and_false, Bool.false_eq_true, ↓reduceIte] at h3 hs
+      subst h3
+      refine ⟨_, (Seg.elem_empty c _ _ st st1 sw tag as hs).congr_right rfl rfl rfl rfl rfl, fun _ => ⟨_, rfl⟩, rfl, ?_⟩
+      intro _ _ hcd _
+      refine ⟨by show st1.inCdata = false; rw [hcur.1, hcd], ?_⟩
+      intro ctx hr own
+      have hr1 : Rd c st1.strtbl ctx := hr
+      rw [evItems_single_events, evItem_elem, evElem_mk, evContent_none]
+      simp only [List.nil_append, List.flatMap_cons, List.flatMap_nil, toks, List.append_nil,
+        hname_view ctx hr1, hs.attrsView ctx hr1, srcToks, srcToksL]
+      rfl
+    | cons k ks =>
+      simp only [List.isEmpty_cons, Bool.not_false, Bool.and_self, ↓reduceIte] at h3 hs
+      obtain ⟨items, hk, hkv⟩ := ih st1 hl hkids (hs.tbl.inv hinv) st2 h2
+      subst h3
+      refine ⟨_, (Seg.elem_content c _ _ st st1 st2 sw tag as items hs hk).congr_right rfl rfl rfl rfl rfl,
+        fun _ => ⟨_, rfl⟩, rfl, ?_⟩
+      intro hpn hpl hcd _
+      rw [plainNode] at hpn
+      obtain ⟨hcd2, _, hview⟩ := hkv hpn hpl (by rw [hcur.1, hcd]) (by rw [hcur.2]; exact plainLang_found c name st hname hpl)
+      refine ⟨hcd2, ?_⟩
+      intro ctx hr own
+      have hr2 : Rd c st2.strtbl ctx := hr
+      have hr1 : Rd c st1.strtbl ctx := hr2.mono hk.tbl.pre
+      rw [evItems_single_events, evItem_elem, evElem_mk, evContent_some]
+      have hbody := hview ctx hr2 (tagName ctx (swPage sw st.tagPage) tag).2
+      rw [hs.tp, hs.ap ctx] at hbody
+      simp only [List.flatMap_cons, List.flatMap_append, List.flatMap_nil, toks, List.append_nil,
+        hname_view ctx hr1, hs.attrsView ctx hr1, hbody, srcToks]
+      rfl
+  · -- text
+    intro c parent encEnd s st _ hl _ hinv st' h
+    simp only [encNodeG] at h
+    obtain ⟨st1, h1, h⟩ := bind_ok' h
+    have h3 := ok_inj h
+    subst h3
+    obtain ⟨items, hleaf, ho, htp, hap, ht, hlen, hcdeq, hv⟩ := encTextW_spec c parent s st st1 hinv h1
+    refine ⟨items, (Seg.leaves c st st1 items hleaf ho htp hap ht hlen).congr_right rfl rfl rfl rfl rfl,
+      fun h => (by cases h), rfl, ?_⟩
+    intro _ hpl hcd hbin
+    simp only [plainLang, Bool.and_eq_true, Bool.not_eq_true'] at hpl
+    refine ⟨by show st1.inCdata = false; rw [hcdeq, hcd], ?_⟩
+    intro ctx hr own
+    have hres : Resolves ctx.tbl st.strtbl := by
+      have : st1.strtbl = st.strtbl := ht
+      intro e he; exact hr.res e (by show e ∈ st1.strtbl; rw [this]; exact he)
+    rw [hv hpl.1.1 hpl.1.2 hl hcd hbin ctx hres own _, srcToks]
+  · -- CDATA inside CDATA
+    intro c parent encEnd kids st s hs _ _ _ _ st' h
+    simp only [encNodeG, hs] at h
+    cases h
+  · -- CDATA
+    intro c parent encEnd kids st hs ih _ hl hover hinv st' h
+    rw [nodeOver] at hover
+    simp only [encNodeG, hs] at h
+    obtain ⟨st2, h2, h⟩ := bind_ok' h
+    obtain ⟨items, hk, _⟩ := ih hl hover (hinv.of_eq rfl rfl) st2 h2
+    have hk' : Seg c st st2 items := hk.congr_left rfl rfl rfl rfl rfl
+    split at h
+    · cases h
+    · rename_i cd hcd
+      have h3 := ok_inj h
+      subst h3
+      by_cases hlen : cd.length > 0
+      · simp only [hlen, ↓reduceIte]
+        have hop : Seg c st2 (({ st2 with inCdata := false } : WSt).emit (opaqueW cd)) [.opaque cd] :=
+          Seg.leaves c st2 _ [.opaque cd]
+            (by intro it hit; simp only [List.mem_cons, List.mem_nil_iff, or_false] at hit; subst hit; exact .opq cd)
+            (by rw [serItems_single, serItem_opq]; rfl) rfl rfl rfl rfl
+        exact ⟨_, (hk'.append hop).congr_right rfl rfl rfl rfl rfl, fun h => (by cases h), trivial,
+          fun hp => (by simp [plainNode] at hp)⟩
+      · simp only [hlen, ↓reduceIte]
+        exact ⟨items, hk'.congr_right rfl rfl rfl rfl rfl, fun h => (by cases h), trivial,
+          fun hp => (by simp [plainNode] at hp)⟩
+  · -- nested tree without language
+    intro c parent encEnd cs root st _ _ _ _ st' h
+    simp only [encNodeG] at h
+    cases h
+  · -- nested tree without root
+    intro c parent encEnd cs st l _ _ _ _ st' h
+    simp only [encNodeG] at h
+    cases h
+  · -- nested tree: one OPAQUE
+    intro c parent encEnd cs st l r c' _ _ _ _ _ st' h
+    simp only [encNodeG] at h
+    obtain ⟨st2, _, h⟩ := bind_ok' h
+    have h3 := ok_inj h
+    subst h3
+    have hop : Seg c st (st.emit (opaqueW (buildResultW (nestedCfg c l) st2))) [.opaque (buildResultW (nestedCfg c l) st2)] :=
+      Seg.leaves c st _ [.opaque _]
+        (by intro it hit; simp only [List.mem_cons, List.mem_nil_iff, or_false] at hit; subst hit; exact .opq _)
+        (by rw [serItems_single, serItem_opq]; rfl) rfl rfl rfl rfl
+    exact ⟨_, hop.congr_right rfl rfl rfl rfl rfl, fun h => (by cases h), rfl, fun hp => (by simp [plainNode] at hp)⟩
+  · -- end of a sibling chain
+    intro c parent st _ _ _ st' h
+    simp only [encNodesW] at h
+    have := ok_inj h
+    subst this
+    refine ⟨[], Seg.nil c st, ?_⟩
+    intro _ _ hcd hbin
+    exact ⟨hcd, hbin, fun ctx _ own => by rw [evItems_nil, srcToksL]; rfl⟩
+  · -- a node and its later siblings
+    intro c parent n rest st ih1 ih2 hl hover hinv st' h
+    rw [nodesOver, Bool.and_eq_true] at hover
+    simp only [encNodesW] at h
+    obtain ⟨st1, h1, h⟩ := bind_ok' h
+    obtain ⟨a, ha, _, hcur1, hva⟩ := ih1 rfl hl hover.1 hinv st1 h1
+    obtain ⟨b, hb, hvb⟩ := ih2 st1 hl hover.2 (ha.tbl.inv hinv) st' h
+    refine ⟨a ++ b, ha.append hb, ?_⟩
+    intro hpn hpl hcd hbin
+    rw [plainNodes, Bool.and_eq_true] at hpn
+    obtain ⟨hcd1, hview1⟩ := hva hpn.1 hpl hcd hbin
+    obtain ⟨hcd2, hbin2, hview2⟩ := hvb hpn.2 hpl hcd1 (by rw [hcur1]; rfl)
+    refine ⟨hcd2, hbin2, ?_⟩
+    intro ctx hr own
+    rw [evItems_append_events, List.flatMap_append, hview1 ctx (hr.mono hb.tbl.pre) own, ha.pages ctx own,
+      hview2 ctx hr own, srcToksL]
 
 end Wbxml.Lemmas.EncW
